@@ -1,4 +1,5 @@
 import Gonnx.Spec.Arity
+import Gonnx.Spec.Types
 import DriverLib
 import Gonnx.Generated.Registry
 open Lean Gonnx Drv
@@ -17,6 +18,9 @@ def handle (j : Json) : Json :=
     let ar : List (String × Json) := match Spec.arityOf op with
       | some (mn, mx) => [("arity", Json.arr #[toJson mn, toJson mx])]
       | none => []
+    let ar := ar ++ (match Spec.typesOf op with
+      | some cons => [("types", Json.arr (cons.map fun row => Json.arr (row.map fun d => Json.str (dtToString d)).toArray).toArray)]
+      | none => [])
     match gate Generated.registry op dts with
     | .ok r => Json.mkObj ([("model", Json.mkObj [("status", "ok"),
         ("pattern", Json.arr (r.map optDtJson).toArray)])] ++ ar)
